@@ -204,3 +204,33 @@ Proof.
   intros ND Hs M E. rewrite (node_find_all_did _ _ _ _ _ _ _ M) in E. injection E as E.
   apply (ordered_answer_document_order f s add_self (did_is d) k r ND Hs). symmetry. exact E.
 Qed.
+
+(* ---- lookups by data object as data equality ------------------------------ *)
+Lemma branch_incl f s b : start_in f s -> incl (branch f s b) (pre_f f).
+Proof.
+  destruct s as [|t]; cbn [start_in branch]; intros Hs x Hx; [exact Hx|].
+  destruct (pre_f_segment f t Hs) as (a & c & E). rewrite E. apply in_or_app. right. apply in_or_app. left.
+  destruct b; [exact Hx|]. rewrite pre_unfold. right. exact Hx.
+Qed.
+
+Lemma node_find_all_by_data_equality f s o_hash o_eqc add_self k :
+  default_ids f -> hash_separates f o_hash o_eqc -> start_in f s ->
+  node_find_all (iterator f s) (Some (DInt o_hash)) None None add_self k
+  = Ok (py_limit k (filter (data_equals o_eqc) (branch f s add_self))).
+Proof.
+  intros Hd Hh Hs. rewrite (node_find_all_did f s (Some (DInt o_hash)) None (DInt o_hash) add_self k eq_refl).
+  rewrite (filter_did_is_data_equality f s add_self o_hash o_eqc Hd Hh (branch_incl f s add_self Hs)). reflexivity.
+Qed.
+
+Lemma tree_find_all_by_data_equality st o_hash o_eqc k :
+  state_wf st -> default_ids (t_forest st) -> hash_separates (t_forest st) o_hash o_eqc ->
+  exists r, tree_find_all st (Some (DInt o_hash)) None None k = Ok r /\
+    NoDup r /\ incl r (map rid (filter (data_equals o_eqc) (pre_f (t_forest st)))) /\
+    (k = 0 -> Permutation.Permutation r (map rid (filter (data_equals o_eqc) (pre_f (t_forest st))))) /\
+    (1 <= k -> length r = Nat.min k (length (filter (data_equals o_eqc) (pre_f (t_forest st))))).
+Proof.
+  intros W Hd Hh.
+  destruct (tree_find_all_index st (Some (DInt o_hash)) None (DInt o_hash) k W eq_refl) as (r & E & Hn & Hi & Hp & Hl).
+  rewrite (all_by_did_is_data_equality _ _ _ Hd Hh) in Hi, Hp, Hl. rewrite map_length in Hl.
+  exists r. auto.
+Qed.
